@@ -398,11 +398,15 @@ def others : RuleMap → List (Name × Expr)
 def sortOthers (l : List (Name × Expr)) : List (Name × Expr) :=
   sortBy (fun a b => bytesLe a.1 b.1) l
 
-/-- one iteration of the loop over the remaining rules: set on success (a failing
-    `set_caller_register` is ignored), clear on failure -/
+/-- one iteration of the loop over the remaining rules: set on success; a failing
+    `set_caller_register` (value does not fit the register, or unknown name) clears the register
+    like a rule that failed to evaluate (fix 15b778b); clear on failure -/
 def applyOther (w : Walker) (cfa : UInt64) (c : Caller) (r : Name × Expr) : Caller :=
   match evalCfi w.env (some cfa) r.2 with
-  | some v => (w.setReg c r.1 v).getD c
+  | some v =>
+    match w.setReg c r.1 v with
+    | some c' => c'
+    | none => w.clearReg c r.1
   | none => w.clearReg c r.1
 
 /-- `walk_with_stack_cfi(init, additional, walker)`; `lines` = INIT rules :: the selected deltas.
@@ -434,7 +438,10 @@ def applyOtherO (w : Walker) (cfa : UInt64) (c : Caller) (r : CfiReg × Expr) : 
   match r.1 with
   | .other n =>
     match evalCfiO w.env (some cfa) r.2 with
-    | .ok (some v) => .ok ((w.setReg c n v).getD c)
+    | .ok (some v) =>
+      match w.setReg c n v with
+      | some c' => .ok c'
+      | none => .ok (w.clearReg c n)
     | .ok none => .ok (w.clearReg c n)
     | .panic s => .panic s
   | _ => .panic "walk_with_stack_cfi: unreachable!()"
